@@ -82,6 +82,26 @@ func c03Scenarios(tier string) []*Scenario {
 		projectYAML(nil, PC{Name: "a", Restart: "on_failure", Backoff: 1}),
 		map[string]*ProcScript{"a": {Launches: [][]Action{{Exit(1)}, {}}}}, 2,
 		[]APICall{{Op: "restart", Name: "a", When: func(w *World) bool { return w.launches["a#0"] >= 1 }}, {Op: "shutdown"}})
+	// 12. a process that is already being stopped (stop requested, the command has not died yet)
+	{
+		terminating := func(w *World) bool { return w.lastStat["a"] == "Terminating" }
+		for _, ordered := range []bool{false, true} {
+			id := "already-stopping"
+			if ordered {
+				id += "-ordered"
+			}
+			sc := add(id, "a was asked to stop and is still dying when the shutdown arrives",
+				projectYAML(nil, PC{Name: "a"}, PC{Name: "b", Deps: map[string]string{"a": "process_started"}}),
+				map[string]*ProcScript{"a": daemon, "b": daemon}, 1,
+				[]APICall{{Op: "stop", Name: "a"}}, []APICall{{Op: "shutdown", When: terminating}})
+			sc.Ordered = ordered
+			sc = add(id+"-ignore-term", "a ignores SIGTERM (kill after 2 s), was asked to stop and is still alive when the shutdown arrives",
+				projectYAML(nil, PC{Name: "a", Lines: []string{"shutdown:", "  timeout_seconds: 2"}}),
+				map[string]*ProcScript{"a": {OnTerm: "ignore"}}, 2,
+				[]APICall{{Op: "stop", Name: "a"}}, []APICall{{Op: "shutdown", When: terminating}})
+			sc.Ordered = ordered
+		}
+	}
 	if tier == "thorough" {
 		add("three", "three independent processes, one restarting", projectYAML(nil, PC{Name: "a"}, PC{Name: "b", Restart: "always"}, PC{Name: "c", Deps: map[string]string{"a": "process_started"}}),
 			map[string]*ProcScript{"a": daemon, "b": {Launches: [][]Action{{Exit(0)}, {}}}, "c": daemon}, 2, shut)
